@@ -10,6 +10,7 @@ from gvsim.sim import Raised, Sim, sut
 
 PROP = 'C15'
 TIERS = {'quick': {'runs': 1200, 'wall': 100}, 'thorough': {'runs': 30000, 'wall': 1500}}
+REACH = ['agent_in_corner', 'holding_item']  # probes / faults that must fire in every batch (reach gaps are reported in the evidence)
 RULE = ('one run = one client: a declared space (random subset of the registered object types - no Box when the state is '
         'represented -, random colour subset, grid >= 2x2, odd view width) with a member world that uses every declared '
         'type, door status and colour, or a shipped configuration; a seeded history walks the agent into corners, picks / '
